@@ -410,6 +410,65 @@ def sgM : Machine := { S := SgS, A := SgA, step := sgStep }
 def sgInit (n waiters : Nat) (script : List Step) : SgS :=
   { n := n, spawned := n, counter := n, waiting := waiters, script := script }
 
+/-! ## Producer.Launch (producer.go:217-226): a background loop runs the producer and hands each value
+    through an unbuffered channel (`ReadAll`: nil error → send, ErrIteratorSkip → next, io.EOF /
+    ErrCurrentOpAbort → stop, anything else → record the error and stop), closing it at the end; the
+    waiter receives a value, or — once the channel is closed — io.EOF joined with the recorded error -/
+
+inductive PlPC where
+  | inFn | sending (v : Int) | closed (e : Err)
+  deriving Repr, DecidableEq
+
+structure PRet where
+  res : Res
+  fin : Nat                    -- ghost: executions finished when the waiter returned
+  idx : Nat                    -- ghost: how many values had been delivered before this return
+  deriving Repr, DecidableEq
+
+structure PlS where
+  bg : PlPC := .inFn
+  waiting : Nat
+  script : List Step := []
+  finished : Nat := 0
+  delivered : Nat := 0
+  rets : List PRet := []
+  deriving Repr
+
+inductive PlA where
+  | fnEnd | recv | recvClosed
+  deriving Repr, DecidableEq
+
+def plStep (s : PlS) : PlA → Option PlS
+  | .fnEnd =>
+    if s.bg = .inFn then
+      let (st, rest) := popStep s.script
+      match st.res with
+      | .panic _ => none
+      | .ret v e =>
+        if e = [] then some { s with bg := .sending v, script := rest, finished := s.finished + 1 }
+        else if isSkip e then some { s with script := rest, finished := s.finished + 1 }
+        else if isAny e [.eof, .abort] then some { s with bg := .closed [], script := rest, finished := s.finished + 1 }
+        else some { s with bg := .closed e, script := rest, finished := s.finished + 1 }
+    else none
+  | .recv =>
+    match s.bg with
+    | .sending v =>
+      if s.waiting = 0 then none
+      else some { s with bg := .inFn, waiting := s.waiting - 1, delivered := s.delivered + 1,
+                         rets := { res := .ret v [], fin := s.finished, idx := s.delivered } :: s.rets }
+    | _ => none
+  | .recvClosed =>
+    match s.bg with
+    | .closed e =>
+      if s.waiting = 0 then none
+      else some { s with waiting := s.waiting - 1,
+                         rets := { res := .ret 0 (join [[.eof], e]), fin := s.finished, idx := s.delivered } :: s.rets }
+    | _ => none
+
+def plM : Machine := { S := PlS, A := PlA, step := plStep }
+
+def plInit (waiters : Nat) (script : List Step) : PlS := { waiting := waiters, script := script }
+
 /-! ## outcome predicates (T-out): what an observation of the real wrapper under contention must
     satisfy. An observation is the list of (callers returned, executions inside the function) pairs
     noted at the quiescent points — the j-th pair after j executions have been let through the
@@ -554,6 +613,10 @@ def lkSim : Sim LkS LkA :=
 
 def bgSim : Sim BgS BgA :=
   { step := bgStep, internal := fun _ => [.begin, .send, .close, .waitRet], gate := .fnEnd,
+    returned := fun s => s.rets.length, inside := fun s => if s.bg = .inFn then 1 else 0 }
+
+def plSim : Sim PlS PlA :=
+  { step := plStep, internal := fun _ => [.recv, .recvClosed], gate := .fnEnd,
     returned := fun s => s.rets.length, inside := fun s => if s.bg = .inFn then 1 else 0 }
 
 def sgSim : Sim SgS SgA :=
